@@ -947,6 +947,78 @@ def range_rule(ctx):
                         if "k" in o and o["k"].get("ty") in ("vibrato::num::U31", "&vibrato::num::U31") \
                                 and "int" in o["k"]:
                             consts.add(o["k"]["int"])
+        # the decoder validates through U31::new: it hands the decoded integer to U31::new and
+        # builds no U31 itself; a decoder with a test of its own must accept exactly 0..=bound
+        decs = [q for q, f in crate.fns.items() if f.body and f.j.get("impl_trait") in (
+                    "bincode::Decode", "bincode::de::Decode", "bincode::BorrowDecode", "bincode::de::BorrowDecode")
+                and str(f.j.get("impl_self_ty", "")) == "vibrato::num::U31"]
+        ctx.floor("CODEC-RANGE", "decoders of U31 (cfg %s)" % cfg, len(decs), 1)
+        for q in sorted(decs):
+            qa = E.fa(q)
+            builds = [(b, s0) for b, i, s0 in qa.stmts()
+                      if "rv" in s0 and s0["rv"]["k"] == "agg" and s0["rv"].get("adt") == "vibrato::num::U31"]
+            news = [(b, t) for b, t in qa.calls()
+                    if any(strip_generics(x) == "vibrato::num::U31::new" for x in callee_paths(t))]
+            inner = [(b, t) for b, t in qa.calls()
+                     if any(strip_generics(x).endswith(("Decode::decode", "BorrowDecode::borrow_decode"))
+                            for x in callee_paths(t))]
+            if not builds:
+                # directly, or by delegating to the other decoder of U31
+                okd = bool(news) or any("U31" in (t.get("dest_ty") or "") for b, t in inner)
+                ctx.ob("CODEC-RANGE", "%s|%s|validates-through-U31::new" % (cfg, q), okd, qa.loc(0),
+                       "the decoded integer becomes a U31 only through U31::new (values above %d are "
+                       "rejected, everything else is accepted)" % bound if okd else
+                       "the decoder of U31 neither calls U31::new nor builds a U31")
+                continue
+            # its own test: the comparisons of the decoded integer with constants on the way to
+            # the construction
+            lo, hi, unknown = 0, (1 << 32) - 1, []
+            for b, s0 in builds:
+                for gb in sorted(qa.dominators().get(b, ())):
+                    gt = qa.term(gb)
+                    if gt["k"] != "switch" or gb == b:
+                        continue
+                    o = qa.origin(gt["op"])
+                    if o[0] == "rv" and o[1]["k"] == "discr":
+                        continue              # the `?` on the inner decode
+                    if o[0] == "rv" and o[1]["k"] == "unop" and o[1]["op"] == "Not":
+                        unknown.append(qa.loc(gb))
+                        continue
+                    if o[0] != "rv" or o[1]["k"] != "binop" or o[1]["op"] not in ("Le", "Lt", "Ge", "Gt"):
+                        unknown.append(qa.loc(gb))
+                        continue
+                    ka, kb = find_const(qa, o[1]["a"]), find_const(qa, o[1]["b"])
+                    f_t, t_t = bool_switch_targets(gt)
+                    truth = True if b in qa.reachable(t_t, avoid={gb}) and b not in qa.reachable(f_t, avoid={gb}) else \
+                        False if b in qa.reachable(f_t, avoid={gb}) and b not in qa.reachable(t_t, avoid={gb}) else None
+                    opx = o[1]["op"]
+                    if truth is None or (ka is None) == (kb is None):
+                        unknown.append(qa.loc(gb))
+                        continue
+                    if ka is not None:        # C op x  ->  x op' C
+                        opx = {"Le": "Ge", "Lt": "Gt", "Ge": "Le", "Gt": "Lt"}[opx]
+                    c = (ka or kb).get("int")
+                    if c is None:
+                        unknown.append(qa.loc(gb))
+                        continue
+                    if not truth:
+                        opx = {"Le": "Gt", "Lt": "Ge", "Ge": "Lt", "Gt": "Le"}[opx]
+                    if opx == "Le":
+                        hi = min(hi, c)
+                    elif opx == "Lt":
+                        hi = min(hi, c - 1)
+                    elif opx == "Ge":
+                        lo = max(lo, c)
+                    else:
+                        lo = max(lo, c + 1)
+            if unknown:
+                raise EngineError("CODEC-RANGE: %s builds a U31 itself under a test that is not a comparison "
+                                  "with a constant (%s): the accepted values cannot be decided" % (q, unknown[:2]))
+            okd = (lo, hi) == (0, bound)
+            ctx.ob("CODEC-RANGE", "%s|%s|validates-through-U31::new" % (cfg, q), okd, qa.loc(0),
+                   "the decoder's own test accepts exactly 0..=%d, as U31::new does" % bound if okd else
+                   "the decoder of U31 accepts %d..=%d but U31::new (and so the encoder) allows 0..=%d: "
+                   "an image the crate wrote is rejected, or an invalid value is accepted" % (lo, hi, bound))
         ctx.floor("CODEC-RANGE", "U31 constants in the crate (cfg %s)" % cfg, len(consts), 1)
         bad = sorted(c for c in consts if c > bound)
         ctx.ob("CODEC-RANGE", "%s|U31::new-accepts-all-written-constants" % cfg, not bad,
